@@ -13,8 +13,9 @@ The full property
 
     theorem schema_total (doc : Doc) : (Schema.new doc).panicSite? = none
 
-is FALSE for the code as it stands: ten classes of documents make `Schema::new` panic (F-16 … F-22,
-F-28 in `known_findings.json`); each has a witness below (`panics_*`, replayed against the real
+is FALSE for the code as it stands: nine classes of documents make `Schema::new` panic (F-16 … F-22
+in `known_findings.json`; a tenth, an enum constant in a default value — F-C19-1 — has been
+repaired and is a regression example now); each has a witness below (`panics_*`, replayed against the real
 `Schema::parse` by the harness).  It is proved as `schema_total_partial` under the decidable,
 syntactic guard `NoKnownSchemaTrigger`, and the acceptance equivalence `schema_accepts_iff` is
 proved in full for every document satisfying the guard.
@@ -28,8 +29,7 @@ open TF TF.SchemaDoc TF.SchemaDoc.Examples
 /-- **No panic** (partial): a document without any of the known panic triggers — exactly one
 `schema` block whose query type is a defined object type, no definition re-using a built-in scalar
 name, distinct directive names, distinct custom scalar names, no `enum`/`union`/`input`
-definition, no field or parameter type with more than 30 list levels, no enum constant inside a
-default value — never makes `Schema::new` panic: not at the sites of the known triggers and not at
+definition, no field or parameter type with more than 30 list levels — never makes `Schema::new` panic: not at the sites of the known triggers and not at
 any of the internal `unwrap`/index sites of `get_field_origins` (mod.rs:769, 781, 799, 805),
 `check_ambiguous_field_origins` (mod.rs:494) or the final `expect` (mod.rs:249). -/
 theorem schema_total_partial (doc : Doc) (h : NoKnownSchemaTrigger doc = true) :
@@ -176,10 +176,21 @@ theorem panics_deep_field_type :
     (Schema.new [.schema "Q", tyQ [edgeA []],
       .type { name := "A", isInterface := false, implements := [], fields := [⟨"x", deep 31, []⟩] }]).panicSite?
       = some .tooManyListLevels := by decide
-/-- F-28: an enum constant as default value of an edge parameter. -/
-theorem panics_enum_default :
-    (Schema.new [.schema "Q", tyQ [edgeA [⟨"p", .named "Int" false, some (.val (.enum [70]))⟩]], tyA]).panicSite?
-      = some .enumValue := by decide
+/- History — F-C19-1 (listed here as "F-28" at the time), repaired: an enum constant as (part of)
+the default value of an edge parameter made `Type::is_valid_value` hit
+`unimplemented!("enum values are not currently supported")`; the witness was
+  theorem panics_enum_default : (Schema.new [… a(p: Int = F) …]).panicSite? = some .enumValue
+and `NoKnownSchemaTrigger` had the clause "no enum constant in a default value".  The enum arm is
+`false` now: the clause is gone from the guard (so `schema_total_partial` / `schema_accepts_iff`
+cover such documents) and the old witness is a regression example: an ordinary invalid default
+value, also for an enum constant inside a list default. -/
+example : rejectsWith [.schema "Q", tyQ [edgeA [⟨"p", .named "Int" false, some (.val (.enum [70]))⟩]], tyA]
+    = some [.invalidDefaultValue "Q" "a" "p" (.named "Int" false)] := by decide
+example : rejectsWith [.schema "Q",
+      tyQ [edgeA [⟨"p", .list (.named "Int" false) false, some (.val (.list [.null, .enum [70]]))⟩]], tyA]
+    = some [.invalidDefaultValue "Q" "a" "p" (.list (.named "Int" false) false)] := by decide
+example : NoKnownSchemaTrigger
+    [.schema "Q", tyQ [edgeA [⟨"p", .named "Int" false, some (.val (.enum [70]))⟩]], tyA] = true := by decide
 /-- `enum` / `union` / `input` definitions are outside the supported constructs (`unimplemented!`). -/
 theorem panics_unsupported : (Schema.new (small ++ [.unsupported "E"])).panicSite? = some .unsupportedDef := by decide
 
@@ -287,7 +298,6 @@ end TF.C19
 #print axioms TF.C19.panics_dup_directive
 #print axioms TF.C19.panics_dup_scalar
 #print axioms TF.C19.panics_deep_field_type
-#print axioms TF.C19.panics_enum_default
 #print axioms TF.C19.panics_unsupported
 #print axioms TF.C19.small_valid
 #print axioms TF.C19.rich_valid
